@@ -10,9 +10,10 @@ from . import ty as T
 CVC5 = '/usr/bin/cvc5'
 
 
-def collect_rec_apps(exprs, rec_names):
+def collect_rec_apps(exprs, rec_names, seen=None):
     """all application terms of @rec spec functions in the given expressions"""
-    seen = set()
+    if seen is None:
+        seen = set()
     out = []
     stack = list(exprs)
     while stack:
@@ -30,11 +31,12 @@ def collect_rec_apps(exprs, rec_names):
     return out
 
 
-def instantiate(eng, exprs, max_rounds=3):
+def instantiate(eng, exprs, max_rounds=3, seen=None, done=None):
     """fuel-style unfolding: defining equations for the rec-apps in exprs (and, for `fuel` rounds, in the
     instances themselves).  Every instance is a true fact about the spec function, so adding it is sound."""
     from .engine import State
-    done = set()
+    if done is None:
+        done = set()
     axioms = []
     frontier = list(exprs)
     saved = eng.st
@@ -42,7 +44,7 @@ def instantiate(eng, exprs, max_rounds=3):
     eng.st = tmp
     try:
         for rnd in range(max_rounds):
-            apps = collect_rec_apps(frontier, set(eng.rec_apps))
+            apps = collect_rec_apps(frontier, set(eng.rec_apps), seen)
             new = []
             for a in apps:
                 if a.get_id() in done:
@@ -195,3 +197,61 @@ def discharge(eng, o, timeout_ms=10000, use_cvc5=True, cross_check=False):
     else:
         res['verdict'] = {'unsat': 'proved', 'sat': 'refuted', 'unknown': 'undecided'}[r]
     return res
+
+
+class Incremental:
+    """Obligations of one path share their path condition as a growing prefix: keep one solver per path, push the common
+    prefix once, and check each goal inside push/pop.  Anything the incremental solver does not decide (unknown) or
+    answers `sat` is re-checked from scratch by `discharge` (fresh solver, model validation, counterexample mode, cvc5),
+    so only `unsat` answers are taken from the incremental solver."""
+
+    def __init__(self, eng, timeout_ms):
+        self.eng = eng
+        self.timeout_ms = timeout_ms
+        self.path = None
+        self.solver = None
+        self.npc = 0
+        self.nax = 0
+        self.pc_ids = []
+        self.ax_ids = []
+
+    def _reset(self, o):
+        self.solver = z3.Solver()
+        self.solver.set('timeout', min(self.timeout_ms, 4000))
+        for f in T.str_lit_axioms():
+            self.solver.add(f)
+        self.path = o.path
+        self.pc_ids = []
+        self.ax_ids = []
+        self.seen = set()
+        self.done = set()
+
+    def discharge(self, o):
+        if o.expect_sat:
+            return discharge(self.eng, o, timeout_ms=self.timeout_ms)
+        pc_ids = [c.get_id() for c in o.pc]
+        ax_ids = [c.get_id() for c in o.axioms]
+        if self.solver is None or self.path != o.path or pc_ids[:len(self.pc_ids)] != self.pc_ids \
+                or ax_ids[:len(self.ax_ids)] != self.ax_ids:
+            self._reset(o)
+        for c in o.pc[len(self.pc_ids):]:
+            self.solver.add(c)
+        for c in o.axioms[len(self.ax_ids):]:
+            self.solver.add(c)
+        new = list(o.pc[len(self.pc_ids):]) + list(o.axioms[len(self.ax_ids):])
+        self.pc_ids, self.ax_ids = pc_ids, ax_ids
+        t0 = time.time()
+        goal = z3.Not(o.cond)
+        # unfoldings of recursive spec functions occurring anywhere in the query (facts: may stay asserted)
+        for ax in instantiate(self.eng, new + [goal], seen=self.seen, done=self.done):
+            self.solver.add(ax)
+        self.solver.push()
+        self.solver.add(goal)
+        r = self.solver.check()
+        self.solver.pop()
+        dt = time.time() - t0
+        if r == z3.unsat:
+            return dict(z3='unsat', time_s=dt, backend='z3', model=None, reason='', raw='unsat', verdict='proved')
+        res = discharge(self.eng, o, timeout_ms=self.timeout_ms)
+        res['time_s'] += dt
+        return res
